@@ -10,8 +10,11 @@
    (3) the truncations in z = ⌊(x−c)·2^16/(2^16 + ⌊x·c/2^16⌋)⌋: −1 < z − 65536·g ≤ g, and |arctan a − arctan b| ≤ |a − b|,
    (4) the clamp at 2^29: arctan x − arctan 2^29 ≤ 2^-29.
   atan2: every pair (y, x) with |y| < 2^31 and x any finite value: within 8·10⁻⁵ of the angle, sign, axes, (0,0) ↦ NaN.
-  Not proved: the 2-ulp quasi-monotonicity clause (`C11_atan_mono2_full`, stated) — tied by the correspondence suite
-  (exhaustive on [0, 200 000] raw with a running maximum, stratified beyond).
+  Quasi-monotonicity (`C11_atan_mono2`, every pair of finite arguments): x ≤ y ⇒ atan(x) ≤ atan(y) + 2.  Inside a
+  segment the kernel argument is monotone up to one unit (`atanZ_almost_mono`, cross-multiplied monotonicity of
+  (x−c)/(1+xc) against the two truncations) and the kernel has unit steps, so the result drops by at most 1; across
+  segments the supremum of a segment (through its last argument, kernel-evaluated) is at most 2 above the segment
+  constant of the next one; negative arguments by oddness.
 -/
 import FixedMath.Proofs.AtanReduce
 import FixedMath.Real.AtanSound
@@ -608,8 +611,238 @@ theorem C11_atan2_origin : atan2 0 0 ⇓ lim_quiet_NaN := by decide
 
 example : fin 65536 ∧ (-140737488355328 : Int) < 65536 := by unfold fin lim_lowest lim_max; omega
 
-/-- full statement of the quasi-monotonicity clause (not proved) -/
-def C11_atan_mono2_full : Prop :=
-  ∀ v w : Int, fin v → fin w → v ≤ w → ∃ a b : Int, (atan v ⇓ a) ∧ (atan w ⇓ b) ∧ a ≤ b + 2
+/-- the kernel argument is monotone up to one unit: the two truncations cannot undo more than that -/
+theorem atanZ_almost_mono (c x y : Int) (hc0 : 0 < c) (hx0 : c ≤ x) (hxy : x ≤ y) (hzx : atanZ c x < 28672) :
+    atanZ c x ≤ atanZ c y + 1 := by
+  obtain ⟨zx0, bx1, bx2⟩ := atanZ_bracket c x hc0 hx0
+  obtain ⟨zy0, by1, by2⟩ := atanZ_bracket c y hc0 (by omega)
+  by_contra hcon
+  push Not at hcon
+  generalize hzx' : atanZ c x = zx at *
+  generalize hzy' : atanZ c y = zy at *
+  have hxc0 : 0 ≤ x * c := Int.mul_nonneg (by omega) (by omega)
+  have hyc0 : 0 ≤ y * c := Int.mul_nonneg (by omega) (by omega)
+  generalize hDx : 65536 + x * c / 65536 = Dx at *
+  generalize hDy : 65536 + y * c / 65536 = Dy at *
+  have hDx0 : 65536 ≤ Dx := by omega
+  have hDy0 : 65536 ≤ Dy := by omega
+  -- exact denominators scaled by 65536
+  have eEx : Dx * 65536 ≤ 4294967296 + x * c ∧ 4294967296 + x * c < (Dx + 1) * 65536 := by omega
+  have eEy : Dy * 65536 ≤ 4294967296 + y * c := by omega
+  generalize hEx : 4294967296 + x * c = Ex at *
+  generalize hEy : 4294967296 + y * c = Ey at *
+  have hEx0 : 0 < Ex := by omega
+  have hEy0 : 0 < Ey := by omega
+  -- f(x) ≤ f(y), cross-multiplied
+  have hf : (x - c) * 65536 * Ey ≤ (y - c) * 65536 * Ex := by
+    rw [← hEx, ← hEy]
+    have : (y - c) * 65536 * (4294967296 + x * c) - (x - c) * 65536 * (4294967296 + y * c) = (y - x) * (4294967296 + c * c) * 65536 := by ring
+    have h2 : 0 ≤ (y - x) * (4294967296 + c * c) * 65536 := by
+      have : 0 ≤ c * c := Int.mul_nonneg (by omega) (by omega)
+      exact Int.mul_nonneg (Int.mul_nonneg (by omega) (by omega)) (by omega)
+    omega
+  generalize hNx : (x - c) * 65536 = Nx at *
+  generalize hNy : (y - c) * 65536 = Ny at *
+  have a1 : (zy + 2) * Dx ≤ Nx := by
+    have : (zy + 2) * Dx ≤ zx * Dx := Int.mul_le_mul_of_nonneg_right (by omega) (by omega)
+    omega
+  have s1 : (zy + 2) * Dx * Ey ≤ Nx * Ey := Int.mul_le_mul_of_nonneg_right a1 (by omega)
+  have s2 : Ny * Ex ≤ ((zy + 1) * Dy - 1) * Ex := Int.mul_le_mul_of_nonneg_right (by omega) (by omega)
+  have s3 : (zy + 1) * (Dy * 65536) ≤ (zy + 1) * Ey := Int.mul_le_mul_of_nonneg_left eEy (by omega)
+  have s4 : ((zy + 1) * (Dy * 65536) - 65536) * Ex ≤ ((zy + 1) * Ey - 65536) * Ex :=
+    Int.mul_le_mul_of_nonneg_right (by omega) (by omega)
+  -- (zy+2)·Dx·65536·Ey < (zy+1)·Ex·Ey
+  have s5 : (zy + 2) * Dx * 65536 * Ey < (zy + 1) * Ex * Ey := by
+    have e1 : (zy + 2) * Dx * 65536 * Ey = ((zy + 2) * Dx * Ey) * 65536 := by ring
+    have e2 : ((zy + 1) * Dy - 1) * Ex * 65536 = ((zy + 1) * (Dy * 65536) - 65536) * Ex := by ring
+    have e3 : ((zy + 1) * Ey - 65536) * Ex = (zy + 1) * Ex * Ey - 65536 * Ex := by ring
+    have : ((zy + 2) * Dx * Ey) * 65536 ≤ ((zy + 1) * Dy - 1) * Ex * 65536 :=
+      Int.mul_le_mul_of_nonneg_right (by omega) (by omega)
+    rw [e1]; rw [e2] at this; rw [e3] at s4
+    omega
+  have s6 : (zy + 2) * Dx * 65536 < (zy + 1) * Ex := lt_of_mul_lt_mul_right s5 (by omega)
+  have s7 : (zy + 1) * Ex ≤ (zy + 1) * ((Dx + 1) * 65536 - 1) := Int.mul_le_mul_of_nonneg_left (by omega) (by omega)
+  have s8 : (zy + 2) * Dx * 65536 < (zy + 1) * (Dx + 1) * 65536 := by
+    have : (zy + 1) * ((Dx + 1) * 65536 - 1) = (zy + 1) * (Dx + 1) * 65536 - (zy + 1) := by ring
+    omega
+  have s9 : (zy + 2) * Dx < (zy + 1) * (Dx + 1) := lt_of_mul_lt_mul_right s8 (by omega)
+  have s10 : (zy + 1) * (Dx + 1) = (zy + 2) * Dx - Dx + zy + 1 := by ring
+  omega
+
+theorem K_top : atanKernel 16 28671 = .ok 27026 := by decide +kernel
+
+/-- value of `atan_sum` in a segment: `atanc + K(z)` -/
+theorem seg_val (atanc c x : Int) (hc0 : 0 < c) (hc1 : c ≤ 159744) (ha : 0 ≤ atanc ∧ atanc ≤ 102944)
+    (hx0 : c ≤ x) (hx1 : x ≤ 35184372088832) (hz : atanZ c x < 28672) :
+    ∃ k : Int, atanKernel 16 (atanZ c x) = .ok k ∧ 0 ≤ k ∧ k ≤ 27026 ∧ atanSum 16 atanc c x = .ok (atanc + k) := by
+  obtain ⟨z0, _, _⟩ := atanZ_bracket c x hc0 hx0
+  obtain ⟨k, hk, k0, k1⟩ := K_le (atanZ c x) 28671 27026 z0 (by omega) (by omega) K_top
+  refine ⟨k, hk, k0, k1, ?_⟩
+  rw [atanSum_eq atanc c x hc0 hc1 hx0 hx1, hk]
+  simp only [bind, Except.bind]
+  exact chk64_ok _ (by omega) (by omega)
+
+/-- inside one segment the result can go down by at most one unit -/
+theorem seg_pair (atanc c x y : Int) (hc0 : 0 < c) (hc1 : c ≤ 159744) (ha : 0 ≤ atanc ∧ atanc ≤ 102944)
+    (hx0 : c ≤ x) (hxy : x ≤ y) (hy1 : y ≤ 35184372088832) (hzx : atanZ c x < 28672) (hzy : atanZ c y < 28672) :
+    ∃ a b : Int, atanSum 16 atanc c x = .ok a ∧ atanSum 16 atanc c y = .ok b ∧ a ≤ b + 1 := by
+  obtain ⟨kx, hkx, _, _, hvx⟩ := seg_val atanc c x hc0 hc1 ha hx0 (by omega) hzx
+  obtain ⟨ky, hky, _, _, hvy⟩ := seg_val atanc c y hc0 hc1 ha (by omega) hy1 hzy
+  refine ⟨_, _, hvx, hvy, ?_⟩
+  have hm := atanZ_almost_mono c x y hc0 hx0 hxy hzx
+  obtain ⟨zy0, _, _⟩ := atanZ_bracket c y hc0 (by omega)
+  obtain ⟨zx0, _, _⟩ := atanZ_bracket c x hc0 hx0
+  by_cases hle : atanZ c x ≤ atanZ c y
+  · obtain ⟨k, hk, _, hkle⟩ := K_le (atanZ c x) (atanZ c y) ky zx0 hle hzy hky
+    rw [hkx] at hk
+    have := Except.ok.inj hk
+    omega
+  · have he : atanZ c x = atanZ c y + 1 := by omega
+    obtain ⟨k0, hk0, _, _, _, hstep⟩ := K_facts (atanZ c y) zy0 hzy
+    obtain ⟨k1, hk1, _, hk11⟩ := hstep (by omega)
+    rw [hky] at hk0
+    have e0 := Except.ok.inj hk0
+    rw [← he, hkx] at hk1
+    have e1 := Except.ok.inj hk1
+    omega
+
+/-- supremum of a segment through its last argument -/
+theorem seg_sup (atanc c xe ze1 ke x : Int) (hc0 : 0 < c) (hc1 : c ≤ 159744) (ha : 0 ≤ atanc ∧ atanc ≤ 102944)
+    (hx0 : c ≤ x) (hxe : x ≤ xe) (hxe1 : xe ≤ 35184372088832) (hzx : atanZ c x < 28672) (hze : atanZ c xe + 1 = ze1) (hz1 : ze1 < 28672)
+    (hk : atanKernel 16 ze1 = .ok ke) :
+    ∃ a : Int, atanSum 16 atanc c x = .ok a ∧ atanc ≤ a ∧ a ≤ atanc + ke := by
+  have hzxe : atanZ c xe < 28672 := by omega
+  obtain ⟨zx0, _, _⟩ := atanZ_bracket c x hc0 hx0
+  obtain ⟨k, hkx, k0, _, hv⟩ := seg_val atanc c x hc0 hc1 ha hx0 (by omega) hzx
+  have hm := atanZ_almost_mono c x xe hc0 hx0 hxe hzx
+  obtain ⟨k', hk', _, hkle⟩ := K_le (atanZ c x) ze1 ke zx0 (by omega) hz1 hk
+  rw [hkx] at hk'
+  have := Except.ok.inj hk'
+  exact ⟨_, hv, by omega, by omega⟩
+
+
+theorem zend1 : atanZ 28672 45055 + 1 = 12595 := by decide
+theorem zend2 : atanZ 45056 77823 + 1 = 18040 := by decide
+theorem zend3 : atanZ 77824 159743 + 1 = 21035 := by decide
+theorem kend1 : atanKernel 16 12595 = .ok 12443 := by decide +kernel
+theorem kend2 : atanKernel 16 18040 = .ok 17604 := by decide +kernel
+theorem kend3 : atanKernel 16 21035 = .ok 20354 := by decide +kernel
+
+/-- value range of `atan` on each of its five segments -/
+theorem atanMag_info (x : Int) (h0 : 0 ≤ x) (h1 : x ≤ 35184372088832) :
+    ∃ a : Int, atanMag x = .ok a ∧
+      ((x < 28672 ∧ 0 ≤ a ∧ a ≤ 27026) ∨ (28672 ≤ x ∧ x < 45056 ∧ 27028 ≤ a ∧ a ≤ 39471) ∨
+       (45056 ≤ x ∧ x < 77824 ∧ 39472 ≤ a ∧ a ≤ 57076) ∨ (77824 ≤ x ∧ x < 159744 ∧ 57076 ≤ a ∧ a ≤ 77430) ∨
+       (159744 ≤ x ∧ 77429 ≤ a)) := by
+  unfold atanMag
+  by_cases s0 : x < 28672
+  · rw [if_pos s0]
+    obtain ⟨k, hk, k0, k1⟩ := K_le x 28671 27026 h0 (by omega) (by omega) K_top
+    exact ⟨k, hk, Or.inl ⟨s0, k0, k1⟩⟩
+  · rw [if_neg s0]
+    by_cases s1 : x < 45056
+    · rw [if_pos s1]
+      obtain ⟨a, ha, a0, a1⟩ := seg_sup 27028 28672 45055 12595 12443 x (by omega) (by omega) (by omega) (by omega) (by omega) (by omega)
+        (z_lt_seg1 x (by omega) s1).1 zend1 (by omega) kend1
+      exact ⟨a, ha, Or.inr (Or.inl ⟨by omega, s1, a0, by omega⟩)⟩
+    · rw [if_neg s1]
+      by_cases s2 : x < 77824
+      · rw [if_pos s2]
+        obtain ⟨a, ha, a0, a1⟩ := seg_sup 39472 45056 77823 18040 17604 x (by omega) (by omega) (by omega) (by omega) (by omega) (by omega)
+          (z_lt_seg2 x (by omega) s2).1 zend2 (by omega) kend2
+        exact ⟨a, ha, Or.inr (Or.inr (Or.inl ⟨by omega, s2, a0, by omega⟩))⟩
+      · rw [if_neg s2]
+        by_cases s3 : x < 159744
+        · rw [if_pos s3]
+          obtain ⟨a, ha, a0, a1⟩ := seg_sup 57076 77824 159743 21035 20354 x (by omega) (by omega) (by omega) (by omega) (by omega) (by omega)
+            (z_lt_seg3 x (by omega) s3).1 zend3 (by omega) kend3
+          exact ⟨a, ha, Or.inr (Or.inr (Or.inr (Or.inl ⟨by omega, s3, a0, by omega⟩)))⟩
+        · rw [if_neg s3]
+          obtain ⟨k, _, k0, _, hv⟩ := seg_val 77429 159744 x (by omega) (by omega) (by omega) (by omega) h1 (z_lt_seg4 x (by omega)).1
+          exact ⟨_, hv, Or.inr (Or.inr (Or.inr (Or.inr ⟨by omega, by omega⟩)))⟩
+
+/-- quasi-monotonicity of `atan` on the clamped non-negative arguments -/
+theorem atanMag_mono2 (x y : Int) (h0 : 0 ≤ x) (hxy : x ≤ y) (h1 : y ≤ 35184372088832) :
+    ∃ a b : Int, atanMag x = .ok a ∧ atanMag y = .ok b ∧ a ≤ b + 2 := by
+  obtain ⟨a, ha, ia⟩ := atanMag_info x h0 (by omega)
+  obtain ⟨b, hb, ib⟩ := atanMag_info y (by omega) h1
+  refine ⟨a, b, ha, hb, ?_⟩
+  -- same segment: the sharper one-unit bound; different segments: the value ranges
+  by_cases same : (y < 28672) ∨ (28672 ≤ x ∧ y < 45056) ∨ (45056 ≤ x ∧ y < 77824) ∨ (77824 ≤ x ∧ y < 159744) ∨ (159744 ≤ x)
+  · rcases same with s | s | s | s | s
+    · -- first segment: the kernel itself, monotone
+      unfold atanMag at ha hb
+      rw [if_pos (by omega)] at ha hb
+      obtain ⟨k, hk, _, hkle⟩ := K_le x y b h0 hxy s hb
+      rw [ha] at hk
+      have := Except.ok.inj hk
+      omega
+    · unfold atanMag at ha hb
+      rw [if_neg (by omega), if_pos (by omega)] at ha hb
+      obtain ⟨a', b', ha', hb', hab⟩ := seg_pair 27028 28672 x y (by omega) (by omega) (by omega) s.1 hxy (by omega)
+        (z_lt_seg1 x s.1 (by omega)).1 (z_lt_seg1 y (by omega) s.2).1
+      rw [ha] at ha'; rw [hb] at hb'
+      have := Except.ok.inj ha'; have := Except.ok.inj hb'
+      omega
+    · unfold atanMag at ha hb
+      rw [if_neg (by omega), if_neg (by omega), if_pos (by omega)] at ha hb
+      obtain ⟨a', b', ha', hb', hab⟩ := seg_pair 39472 45056 x y (by omega) (by omega) (by omega) s.1 hxy (by omega)
+        (z_lt_seg2 x s.1 (by omega)).1 (z_lt_seg2 y (by omega) s.2).1
+      rw [ha] at ha'; rw [hb] at hb'
+      have := Except.ok.inj ha'; have := Except.ok.inj hb'
+      omega
+    · unfold atanMag at ha hb
+      rw [if_neg (by omega), if_neg (by omega), if_neg (by omega), if_pos (by omega)] at ha hb
+      obtain ⟨a', b', ha', hb', hab⟩ := seg_pair 57076 77824 x y (by omega) (by omega) (by omega) s.1 hxy (by omega)
+        (z_lt_seg3 x s.1 (by omega)).1 (z_lt_seg3 y (by omega) s.2).1
+      rw [ha] at ha'; rw [hb] at hb'
+      have := Except.ok.inj ha'; have := Except.ok.inj hb'
+      omega
+    · unfold atanMag at ha hb
+      rw [if_neg (by omega), if_neg (by omega), if_neg (by omega), if_neg (by omega)] at ha hb
+      obtain ⟨a', b', ha', hb', hab⟩ := seg_pair 77429 159744 x y (by omega) (by omega) (by omega) s hxy h1
+        (z_lt_seg4 x s).1 (z_lt_seg4 y (by omega)).1
+      rw [ha] at ha'; rw [hb] at hb'
+      have := Except.ok.inj ha'; have := Except.ok.inj hb'
+      omega
+  · omega
+
+/-- **C11, quasi-monotonicity**: `x ≤ y ⇒ atan(x) ≤ atan(y) + 2 ulp` for ALL finite arguments -/
+theorem C11_atan_mono2 (v w : Int) (hv : fin v) (hw : fin w) (hvw : v ≤ w) :
+    ∃ a b : Int, (atan v ⇓ a) ∧ (atan w ⇓ b) ∧ a ≤ b + 2 := by
+  unfold fin lim_lowest lim_max at hv hw
+  have clamp_le : ∀ p q : Int, p ≤ q → atanClamp p ≤ atanClamp q := by
+    intro p q h; unfold atanClamp; split <;> split <;> omega
+  have clamp_rng : ∀ p : Int, 0 ≤ p → 0 ≤ atanClamp p ∧ atanClamp p ≤ 35184372088832 := by
+    intro p h; unfold atanClamp; split <;> omega
+  -- non-negative pair
+  have pos : ∀ p q : Int, 0 ≤ p → p ≤ q → q ≤ 9223372036854775807 →
+      ∃ a b : Int, atan p = .ok a ∧ atan q = .ok b ∧ a ≤ b + 2 ∧ 0 ≤ a ∧ 0 ≤ b ∧ a ≤ 102944 ∧ b ≤ 102944 := by
+    intro p q hp hpq hq
+    obtain ⟨a, b, ha, hb, hab⟩ := atanMag_mono2 (atanClamp p) (atanClamp q) (clamp_rng p hp).1 (clamp_le p q hpq) (clamp_rng q (by omega)).2
+    rw [← atan_nonneg p hp] at ha
+    rw [← atan_nonneg q (by omega)] at hb
+    obtain ⟨a', ha', a0, a1, _⟩ := atan_nonneg_acc p hp (by omega)
+    obtain ⟨b', hb', b0, b1, _⟩ := atan_nonneg_acc q (by omega) hq
+    rw [ha] at ha'; rw [hb] at hb'
+    have := Except.ok.inj ha'; have := Except.ok.inj hb'
+    exact ⟨a, b, ha, hb, hab, by omega, by omega, by omega, by omega⟩
+  by_cases hv0 : 0 ≤ v
+  · obtain ⟨a, b, ha, hb, hab, _⟩ := pos v w hv0 hvw (by omega)
+    exact ⟨a, b, ha, hb, hab⟩
+  · by_cases hw0 : 0 ≤ w
+    · -- v < 0 ≤ w : atan v ≤ 0 ≤ atan w
+      obtain ⟨a, _, ha, _, _, a0, _, a1, _⟩ := pos (-v) (-v) (by omega) (le_refl _) (by omega)
+      have hn := atan_neg (-v) a (by omega) (by omega) ha (by omega)
+      rw [Int.neg_neg] at hn
+      obtain ⟨b, _, hb, _, _, b0, _⟩ := pos w w hw0 (le_refl _) (by omega)
+      exact ⟨-a, b, hn, hb, by omega⟩
+    · -- both negative: oddness
+      obtain ⟨b, a, hb, ha, hba, b0, a0, b1, a1⟩ := pos (-w) (-v) (by omega) (by omega) (by omega)
+      have hnv := atan_neg (-v) a (by omega) (by omega) ha (by omega)
+      have hnw := atan_neg (-w) b (by omega) (by omega) hb (by omega)
+      rw [Int.neg_neg] at hnv hnw
+      exact ⟨-a, -b, hnv, hnw, by omega⟩
+
 
 end FixedMath
